@@ -56,6 +56,10 @@ def scopes(chk):
     p.update({'Budget': 3 if quick else 4, 'TextPool': ['t', ' '], 'MathTextPool': ['x'], 'CmdNames': ['a'], 'EnvNames': ['e'], 'MathKinds': KINDS,
               'MEnvNames': ['equation'], 'Leaves': [], 'MaxSib': 3, 'MaxArgs': 1, 'MaxDepth': 3})
     sc.append(('contexts', p))
+    p = dict(common)
+    p.update({'Budget': 6, 'TextPool': ['t'], 'MathTextPool': ['x'], 'CmdNames': ['a'], 'EnvNames': [], 'ListNames': [], 'MathKinds': ['$'] if quick else KINDS,
+              'MEnvNames': [], 'Leaves': [], 'MaxSib': 2, 'MaxArgs': 1, 'MaxDepth': 4, 'ExtraQueries': ['a']})
+    sc.append(('nested-math', p))
     return sc
 
 
